@@ -419,6 +419,12 @@ func (cd *cmdDispatcher) prepare(cs *clientState, input respValue) (ctx *cmdCont
 func (cd *cmdDispatcher) dispatch(cs *clientState, input respValue) (output respValue) {
 	ctx, response := cd.prepare(cs, input)
 	if response != nil {
+		if cs.cmdQueue != nil {
+			if _, rejected := response.(respErrorString); rejected {
+				// a command rejected while queueing (unknown, bad arguments) poisons the transaction
+				cs.cmdQueueError = true
+			}
+		}
 		output.data = response
 		return
 	}
